@@ -7,6 +7,7 @@ import (
 	"math/bits"
 	"time"
 
+	header "github.com/celestiaorg/go-header"
 	"github.com/celestiaorg/go-header/store"
 	hsync "github.com/celestiaorg/go-header/sync"
 
@@ -102,9 +103,14 @@ func runC15(s *core.Sim, tier string) RunInfo {
 		}
 		calls0 := w.G.Count("GetByHeight")
 		hit := false
+		notFound := s.Tape.Coin("fail-with-notfound", 1, 2)
 		w.G.ByHeightFault = func(n int, h uint64) error {
 			if failAt > 0 && n-calls0 == failAt {
 				hit = true
+				if notFound {
+					// what an exchange or a store answers for a height it does not have
+					return fmt.Errorf("getter: %w", header.ErrNotFound)
+				}
 				return errors.New("getter: injected failure")
 			}
 			return nil
